@@ -1,4 +1,5 @@
-"""C18 — lifting preserves module structure on the supported subset (generated mapping decided, module walk not).
+"""C18 — lifting preserves module structure on the supported subset (generated mapping decided for every arm; the module walk
+decided on bounded module shapes with symbolic content, see checks/c18walk.py).
 
 T+SMT  every arm of the generated `lift_op` / `lift_type` / `lift_branch` / `lift_terminator` (758 arms): the sequence of
        (operand variant, required/optional/variadic) it consumes with `operands.next()` equals, position by position, the
@@ -9,8 +10,11 @@ T+SMT  every arm of the generated `lift_op` / `lift_type` / `lift_branch` / `lif
 M2     `lift_constant` (MIR) for OpConstant: with the declared type Int{signedness 0} => UInt(v), Int{signed} => Int(v as i32),
        Float{no encoding} => Float(from_bits(v)) for ALL 32-bit literals (lifting succeeds for every value).
 R      a Builder-made module with one instruction per arm family is lifted natively (validation of the positional claim).
-NOT covered: counts and order of types/constants/ops/blocks/phi arguments produced by the hand-written walk in lift/mod.rs
-(hash-map token storage) — stated in MANIFEST."""
+M2     the walk `LiftContext::convert` itself (lift/mod.rs, lift/storage.rs, sr/storage.rs and the generated lift_* functions, all
+       from MIR) on module shapes covering every supported type / constant kind, interleaved declarations, functions with
+       blocks, phis, result-producing instructions and the non-switch terminators: counts, order, tokens, operands, version,
+       capabilities, memory model (checks/c18walk.py). Outside: shapes other than those listed (longer modules, other opcodes
+       in blocks), OpSwitch, forward references (the lifter panics on them by design of the subset)."""
 import re
 import z3
 import sym
@@ -112,6 +116,8 @@ def run(ctx):
                           "the %s arm for Op%s fills fields in the order %s but ops::%s::%s declares %s: operands are carried to the wrong fields; native lift: %s" % (
                               fname, opname, got, arm["enum"], arm["variant"], decl, str(real)[:200]), {"cmd": "lift_probe %d" % opc, "real": real})
     lift_constant(ctx, q, rp)
+    import c18walk
+    c18walk.run_walk(ctx, q, rp)
     rp.close()
     ctx.validated = rp.count
     ctx.extra["arms"] = n
